@@ -68,6 +68,8 @@ structure Stashed where
   taint : Bool := false
   /-- result of `extend` / `prepend` -/
   ext : Bool := false
+  /-- for the result of one `extend(a, b)` of two non-extended bundles: `(a, b)` -/
+  parts : Option (BState × BState) := none
 
 structure St where
   active : Bool := false
@@ -112,8 +114,8 @@ def specCol (st : St) (model spec : String) : String :=
 
 def target (st : St) (t : String) : Option Stashed :=
   match t with
-  | "m" => some ⟨st.mono.bundle, st.monoSnaps, st.monoValid, false, false⟩
-  | "s" => some ⟨st.split.bundle, st.splitSnaps, st.splitValid, st.splitTaint, false⟩
+  | "m" => some ⟨st.mono.bundle, st.monoSnaps, st.monoValid, false, false, none⟩
+  | "s" => some ⟨st.split.bundle, st.splitSnaps, st.splitValid, st.splitTaint, false, none⟩
   | "t" => st.stash.head?
   | _ => none
 
@@ -126,9 +128,19 @@ def c16 (s : Stashed) (known : Bool) : Bool :=
 def destroyFree (b : BState) : Bool :=
   !b.state.any (fun e => e.2.status.wasDestroyed) && !b.reverts.any (fun blk => blk.any (fun e => e.2.wipe))
 
-/-- region in which per-block pre-values / `revert` are claimed for a bundle: not tainted, and an
-extended bundle must be destroy-free (findings F4, F5) -/
-def revRegion (s : Stashed) : Bool := !s.taint && (!s.ext || destroyFree s.b)
+/-- region in which per-block pre-values (database reading) are claimed for a bundle: not tainted; for the result of
+`extend(a, b)` the hypothesis `Spec.Bundle.extendOk a b` of `Props.C18.extend_assoc_partial` (outside finding F4),
+for other extended bundles (nested `extend`, no theorem) destroy-freeness -/
+def preRegion (s : Stashed) : Bool :=
+  !s.taint && (!s.ext || (match s.parts with | some (a, b) => extendOk a b | none => destroyFree s.b))
+
+/-- region in which `revert(j)` = prefix state is claimed: not tainted and, for a bundle built by one `State`, the
+hypothesis `Spec.Bundle.revertOk` of `Props.C17.revert_j_equals_prefix_partial` (outside findings F2a / F2b); for
+`extend(a, b)` the hypothesis `Spec.Bundle.extRevertOk` of `Props.C18.extend_revert_partial` (outside finding F5), or
+destroy-freeness (no theorem) -/
+def revertRegion (s : Stashed) (j : Nat) : Bool :=
+  !s.taint && revertOk s.b j &&
+  (!s.ext || destroyFree s.b || (match s.parts with | some (a, b) => extRevertOk a b j | none => false))
 
 def revsUsable (s : Stashed) : Bool := s.valid && s.b.reverts.length + 1 == s.snaps.length
 
@@ -192,7 +204,7 @@ def handleOp (st : St) (toks : List String) : St × String :=
        (st, s!"b {a} b2 {if a == b then "=" else b}")
      | _, _ => die st)
   | ["take"] =>
-    let e : Stashed := ⟨st.split.bundle, st.splitSnaps, st.splitValid, st.splitTaint, false⟩
+    let e : Stashed := ⟨st.split.bundle, st.splitSnaps, st.splitValid, st.splitTaint, false, none⟩
     let st := { st with stash := e :: st.stash, split := { st.split with bundle := {} },
                         splitTaint := st.split.cache.any (fun c => c.2.status.wasDestroyed),
                         splitSnaps := (match st.splitSnaps.getLast? with | some p => [p] | none => []),
@@ -207,7 +219,8 @@ def handleOp (st : St) (toks : List String) : St × String :=
   | ["extend"] =>
     (match st.stash with
      | b :: a :: rest =>
-       let e : Stashed := ⟨extend a.b b.b, a.snaps ++ b.snaps.drop 1, a.valid && b.valid, a.taint || b.taint, true⟩
+       let e : Stashed := ⟨extend a.b b.b, a.snaps ++ b.snaps.drop 1, a.valid && b.valid, a.taint || b.taint, true,
+                           if a.ext || b.ext then none else some (a.b, b.b)⟩
        ({ st with stash := e :: rest }, fmtBundle e.b)
      | _ => (st, "bad-op"))
   | ["prepend"] =>
@@ -220,7 +233,7 @@ def handleOp (st : St) (toks : List String) : St × String :=
          | some ra => optSame ra.info e.2.info &&
              e.2.storage.all (fun s => match ra.storage.get s.1 with
                | some rs => rs.present == s.2.present | none => false)
-       let e : Stashed := ⟨res, a.snaps ++ b.snaps.drop 1, false, a.taint || b.taint, true⟩
+       let e : Stashed := ⟨res, a.snaps ++ b.snaps.drop 1, false, a.taint || b.taint, true, none⟩
        ({ st with stash := e :: rest }, specCol st s!"nov={b01 nov} {fmtBundle res}" s!"nov=1 {fmtBundle res}")
      | _ => (st, "bad-op"))
   | ["plain", t, k] =>
@@ -238,12 +251,12 @@ def handleOp (st : St) (toks : List String) : St × String :=
        let r17d := c17 true s
        let y := b01 (c16 s true)
        let n := b01 (c16 s false)
-       -- literal reading claimed only where no wiped revert lists a `Destroyed` slot
-       let litRegion := !s.b.reverts.any (fun blk => blk.any (fun e =>
-         e.2.wipe && e.2.storage.any (fun sl => sl.2 == RevSlot.destroyed)))
+       -- literal reading claimed only where no wiped revert lists a `Destroyed` slot: hypothesis
+       -- `Spec.Bundle.literalOk` of `Props.C17.revert_k_correct_literal_partial`, for every block
+       let litRegion := s.b.reverts.all literalOk
        let dem (region : Bool) (x : String) := if x == "na" || !region then x else "1"
        (st, specCol st s!"c16y={y} c16n={n} c17={r17} c17d={r17d}"
-                       s!"c16y={dem (!s.taint) y} c16n={dem (!s.taint) n} c17={dem (revRegion s && litRegion) r17} c17d={dem (revRegion s) r17d}")
+                       s!"c16y={dem (!s.taint) y} c16n={dem (!s.taint) n} c17={dem (preRegion s && litRegion) r17} c17d={dem (preRegion s) r17d}")
      | none => (st, "bad-op"))
   | ["revert", t, j] =>
     (match target st t, parseHex? j with
@@ -264,8 +277,9 @@ def handleOp (st : St) (toks : List String) : St × String :=
              | some h => b01 (fmtChangeset (toPlainState b' true) == fmtChangeset (toPlainState h true))
              | none => "na")
          else "na"
-       -- claimed only when none of the reverted blocks holds a storage-wiping revert
-       let region := revRegion s && !((s.b.reverts.drop (n - j')).any (fun blk => blk.any (fun e => e.2.wipe)))
+       -- claimed exactly in the region of `Props.C17.revert_j_equals_prefix_partial` (`Spec.Bundle.revertOk`:
+       -- every storage-wiping revert met lists no slot and meets an account without slot entries)
+       let region := revertRegion s j
        let one (x : String) := if x == "na" || !region then x else "1"
        let d := fmtBundle b'
        (st, specCol st s!"ry={ry} rn={rn} lit={lit} {d}" s!"ry={one ry} rn={one rn} lit={lit} {d}")
